@@ -295,8 +295,9 @@ def write_evidence(pid, tier, seed, engine, results, wall, nviol, known_hits, kf
         "wall_s": round(wall, 2),
         "violations": nviol,
     }
-    os.makedirs(os.path.join(ROOT, "evidence"), exist_ok=True)
-    with open(os.path.join(ROOT, "evidence", "%s.json" % pid), "w") as f:
+    out_root = os.environ.get("VERIF_OUT", ROOT)  # VERIF_OUT: scratch runs against mutants
+    os.makedirs(os.path.join(out_root, "evidence"), exist_ok=True)
+    with open(os.path.join(out_root, "evidence", "%s.json" % pid), "w") as f:
         json.dump(ev, f, indent=1, default=_json_default)
         f.write("\n")
 
